@@ -25,7 +25,9 @@ type c20Prog struct {
 	Holder   int    `json:"holder"`   // which main this belongs to
 	TRs      []int  `json:"trs"`      // for main: nesting depth of each TemporarilyRelease call (0 = plain f)
 	Releases int    `json:"releases"` // number of release() calls at the end of main / in the releaser
-	Mode     string `json:"mode"`     // "limited" | "nolimiter" | "cancelled"
+	Mode     string `json:"mode"`     // "limited" | "nolimiter" | "cancelled" | "reentrant" (Acquire on the context of the previous holder)
+	Late     bool   `json:"late,omitempty"` // releaser: starts only after its holder's own goroutine has finished
+	PanicAt  int    `json:"panic_at"` // 1-based index of the TemporarilyRelease call whose innermost function panics (recovered by the caller); 0: none
 }
 
 type c20Scenario struct {
@@ -43,6 +45,7 @@ type c20Holder struct {
 	noop  bool
 	// bookkeeping by the harness itself, independent of the package's status word
 	acquired   bool
+	returned   bool // Acquire has returned on a context with a live limiter: from now on it counts as running
 	relStarted int
 	relDone    int
 }
@@ -79,9 +82,16 @@ func c20Run(c *Ctx, m *Model, sc c20Scenario) {
 				cctx, cancel := context.WithCancel(base)
 				cancel()
 				actx = cctx
+			case "reentrant":
+				// a context that already carries a holder: Acquire must still take a token of its own
+				if prev := holders[p.Holder-1]; prev != nil && prev.ctx != nil {
+					actx = prev.ctx
+				}
 			}
 			h.ctx, h.rel = cl.Acquire(actx)
-			for _, depth := range p.TRs {
+			h.returned = p.Mode == "limited" || p.Mode == "reentrant"
+			for i, depth := range p.TRs {
+				boom := p.PanicAt == i+1
 				var f func(d int) func()
 				f = func(d int) func() {
 					return func() {
@@ -89,10 +99,16 @@ func c20Run(c *Ctx, m *Model, sc c20Scenario) {
 							cl.TemporarilyRelease(h.ctx, f(d-1))
 						}
 						s.Gate("f.exit", nil)
+						if d == 0 && boom {
+							panic("c20: the function passed to TemporarilyRelease panics")
+						}
 					}
 				}
 				h.inTR++
-				cl.TemporarilyRelease(h.ctx, f(depth))
+				func() {
+					defer func() { recover() }() // the caller recovers and carries on
+					cl.TemporarilyRelease(h.ctx, f(depth))
+				}()
 				h.inTR--
 			}
 			for i := 0; i < p.Releases; i++ {
@@ -118,6 +134,9 @@ func c20Run(c *Ctx, m *Model, sc c20Scenario) {
 			}
 			h := holders[p.Holder]
 			if h == nil || h.rel == nil {
+				continue
+			}
+			if mt := tasks[fmt.Sprintf("m%d", p.Holder)]; p.Late && mt != nil && !mt.Done {
 				continue
 			}
 			t := s.Go(name, func() {
@@ -253,8 +272,8 @@ func c20Run(c *Ctx, m *Model, sc c20Scenario) {
 		// a holder runs from the moment its Acquire took a spot until a release of it starts, except
 		// while its goroutine is inside TemporarilyRelease
 		running := 0
-		for _, hh := range order {
-			if hh.acquired && hh.relStarted == 0 && hh.inTR == 0 {
+		for _, hh := range holders {
+			if hh.returned && hh.relStarted == 0 && hh.inTR == 0 {
 				running++
 			}
 		}
@@ -286,6 +305,18 @@ func c20Run(c *Ctx, m *Model, sc c20Scenario) {
 	}
 	if violated == "" && len(s.Panics) > 0 {
 		violated = fmt.Sprintf("panic: %v", s.Panics[0])
+	}
+	for _, p := range sc.Progs {
+		if p.PanicAt > 0 {
+			rep.Count("scenario_with_panicking_function")
+			break
+		}
+	}
+	for _, p := range sc.Progs {
+		if p.Mode == "reentrant" {
+			rep.Count("scenario_with_reentrant_acquire")
+			break
+		}
 	}
 	rep.Count(fmt.Sprintf("cap:%d", sc.Cap))
 	rep.CountN("steps", len(labels))
@@ -353,9 +384,26 @@ func c20Gen(r *Rand) c20Scenario {
 		if r.Chance(0.15) {
 			p.Releases = 0
 		}
+		if k > 0 && p.Mode == "limited" && r.Chance(0.15) {
+			// only on top of a limited holder: its context is live and carries the limiter
+			for _, q := range sc.Progs {
+				if q.Kind == "main" && q.Holder == k-1 && q.Mode == "limited" {
+					p.Mode = "reentrant"
+				}
+			}
+		}
+		if len(p.TRs) > 0 && r.Chance(0.2) {
+			p.PanicAt = 1 + r.Intn(len(p.TRs))
+		}
+		// holders that linger (their own goroutine never releases; a second goroutine does, later): only while
+		// holders linger can over-admission be seen
+		linger := p.Releases > 0 && r.Chance(0.4)
+		if linger {
+			p.Releases = 0
+		}
 		sc.Progs = append(sc.Progs, p)
-		if r.Chance(0.6) {
-			sc.Progs = append(sc.Progs, c20Prog{Kind: "releaser", Holder: k, Releases: 1 + r.Intn(2)})
+		if linger || r.Chance(0.6) {
+			sc.Progs = append(sc.Progs, c20Prog{Kind: "releaser", Holder: k, Releases: 1 + r.Intn(2), Late: linger && r.Chance(0.7)})
 		}
 	}
 	return sc
